@@ -62,6 +62,7 @@ type Payment struct {
 	Done       *rt.Event
 	Wake       *rt.Event // fired on resolution or on early release of the caller
 	Released   bool      // caller released early (error while pending)
+	held       bool
 	CallerErr  string
 }
 
@@ -351,8 +352,14 @@ func (l *SimLN) resolve(p *Payment) {
 			l.failHTLC(p, "incorrect_or_unknown_payment_details")
 			return
 		case "hold":
-			w.Sim.After(600*time.Second, "ln", fmt.Sprintf("advhold#%d", p.Idx), func() { l.failHTLC(p, "held") })
-			return
+			// a hostile payee sits on the HTLC (it may still settle it later: it
+			// knows the preimage), which is legal until the HTLC's CLTV expiry
+			if !p.held {
+				p.held = true
+				w.Probe("ln:adv-holds-htlc")
+				w.Sim.After(400*time.Second, "ln", fmt.Sprintf("advhold#%d", p.Idx), func() { l.resolve(p) })
+				return
+			}
 		}
 	} else {
 		if inv.State != "open" || w.Sim.Now() >= inv.ExpiresAt || inv.AmountMsat != p.AmountMsat {
@@ -370,6 +377,37 @@ func (l *SimLN) resolve(p *Payment) {
 	p.Done.Fire()
 	p.Wake.Fire()
 	l.fireNotifiers(inv)
+	if w.Nodes[inv.Payee].Kind == "adv" && w.Adv != nil {
+		w.Adv.onInvoicePaid(inv)
+	}
+}
+
+// AdvPay lets the adversary (payer) pay an invoice; runs in scheduler context
+// and reports the outcome through done.
+func (l *SimLN) AdvPay(payer int, payreq, scid string, done func(preimage string, ok bool)) {
+	w := l.w
+	body, err := DecodePayreqBody(payreq)
+	ch := l.channel(scid)
+	if err != nil || ch == nil || ch.peerOf(payer) < 0 || ch.spendable(payer) < body.A {
+		done("", false)
+		return
+	}
+	for _, p := range l.PaymentsFor(payer, body.H) {
+		if p.State != "failed" {
+			done("", false)
+			return
+		}
+	}
+	l.payIdx++
+	p := &Payment{Idx: l.payIdx, Payer: payer, Payee: ch.peerOf(payer), Hash: body.H, AmountMsat: body.A, Scid: ch.Scid, State: "pending", Fn: "adv",
+		SentAtBTC: w.BTC.Height(), Done: rt.NewEvent("pay"), Wake: rt.NewEvent("paywake")}
+	l.Payments = append(l.Payments, p)
+	ch.move(payer, body.A, false)
+	w.Observe(&Obs{Node: payer, Kind: "htlc.add", Str: body.H, Num: int64(body.A), Pay: &PayObs{Idx: p.Idx, Payer: payer, Payreq: payreq, Hash: body.H, Scid: scid, Fn: "adv"}})
+	w.Sim.After(ms(w.Plan.Scn.LNLatencyMs), "ln", fmt.Sprintf("resolve#%d", p.Idx), func() {
+		l.resolve(p)
+		done(p.Preimage, p.State == "settled")
+	})
 }
 
 func (l *SimLN) failHTLC(p *Payment, reason string) {
